@@ -305,6 +305,52 @@ def check(ctx):
     rp = repo.fn("dataiter.dt.replace")
     ok = any(isinstance(c.func, ast.Attribute) and c.func.attr == "replace" and any(k.arg is None for k in c.keywords) for _, c in calls_in(rp))
     ctx.ob("SIB-18", rp, "replace -> datetime.replace(**kwargs)", rp.node, ok, "components are forwarded to datetime.replace" if ok else "replace does not forward components", nontrivial=False)
+
+    # a component is "given" when it is not None: 0 is a legitimate hour / minute / second / microsecond.  No component value
+    # may be used as a bare truth value (`if v`, `... and kwargs[k]`, `not v`).
+    ctx.rule("ARG-given", "dt.replace tests its components with `is not None`, never by truthiness")
+    comps = [p_ for p_ in rp.params[1:] + list(getattr(rp, "kwonly", []))]
+    dict_names = {n.targets[0].id for n in body_nodes(rp.node) if isinstance(n, ast.Assign) and len(n.targets) == 1 and isinstance(n.targets[0], ast.Name)
+                  and ("locals()" in norm(n.value) or sum(1 for c_ in comps if c_ in {y.id for y in ast.walk(n.value) if isinstance(y, ast.Name)}) >= 3
+                       or any(isinstance(y, ast.Name) and y.id in () for y in ast.walk(n.value)))}
+    # dicts rebuilt from such dicts
+    for _ in range(3):
+        dict_names |= {n.targets[0].id for n in body_nodes(rp.node) if isinstance(n, ast.Assign) and len(n.targets) == 1 and isinstance(n.targets[0], ast.Name)
+                       and isinstance(n.value, (ast.DictComp, ast.Call, ast.Dict)) and any(isinstance(y, ast.Name) and y.id in dict_names for y in ast.walk(n.value))
+                       and isinstance(n.value, ast.DictComp)}
+    valvars = set()
+    for g_ in [y for y in ast.walk(rp.node) if isinstance(y, (ast.comprehension, ast.For))]:
+        it_ = norm(g_.iter)
+        if (it_.endswith(".items()") and (it_.startswith("locals()") or it_.split(".")[0] in dict_names)) and isinstance(g_.target, ast.Tuple) \
+                and len(g_.target.elts) == 2 and isinstance(g_.target.elts[1], ast.Name):
+            valvars.add(g_.target.elts[1].id)
+        if it_.endswith(".values()") and it_.split(".")[0] in dict_names and isinstance(g_.target, ast.Name):
+            valvars.add(g_.target.id)
+
+    def is_comp_value(e):
+        return (isinstance(e, ast.Name) and (e.id in comps or e.id in valvars)) or \
+            (isinstance(e, ast.Subscript) and isinstance(e.value, ast.Name) and e.value.id in dict_names)
+
+    def bool_operands(t):
+        if isinstance(t, ast.BoolOp):
+            for v in t.values:
+                yield from bool_operands(v)
+        elif isinstance(t, ast.UnaryOp) and isinstance(t.op, ast.Not):
+            yield from bool_operands(t.operand)
+        else:
+            yield t
+    tests19 = [n.test for n in ast.walk(rp.node) if isinstance(n, (ast.If, ast.IfExp, ast.While))] + \
+              [c_ for g_ in ast.walk(rp.node) if isinstance(g_, ast.comprehension) for c_ in g_.ifs]
+    n_tv = 0
+    for t in tests19:
+        for o in bool_operands(t):
+            if is_comp_value(o):
+                n_tv += 1
+                ctx.ob("ARG-given", rp, norm(t)[:70], t, False,
+                       f"`{norm(o)}` -- the value of a component -- is used as a truth value in `{norm(t)[:50]}`: a component given as 0 (hour=0, "
+                       f"minute=0, second=0, microsecond=0) counts as `not given` and is not replaced",
+                       clause="replace gives what Python's datetime.replace gives at every non-missing position")
+    ctx.note(f"ARG-given: {len(tests19)} tests in dt.replace examined, {n_tv} truth-value uses of component values")
     loops = [n for n in ast.walk(rp.node) if isinstance(n, ast.For) and "flatnonzero" in norm(n.iter) or
              (isinstance(n, ast.For) and isinstance(n.iter, ast.Call) and norm(n.iter.func) == "enumerate")]
     for l in [n for n in ast.walk(rp.node) if isinstance(n, ast.For)]:
